@@ -14,6 +14,9 @@ import (
 // ErrChecksum indicates a checksum or file size mismatch on decode.
 var ErrChecksum = errors.New("lzhuf: invalid checksum")
 
+// ErrHeader indicates a header with an impossible (negative) file size.
+var ErrHeader = errors.New("lzhuf: invalid header")
+
 // A Reader is an io.Reader that can be read to retrieve
 // uncompressed data from a lzhuf-compressed file.
 //
@@ -71,7 +74,14 @@ func NewReader(r io.Reader, crc16 bool) (*Reader, error) {
 	r = io.TeeReader(r, d.crcw)
 	d.r = newBitReader(r)
 
-	return d, binary.Read(r, binary.LittleEndian, &d.header.size)
+	err := binary.Read(r, binary.LittleEndian, &d.header.size)
+	if err == nil && d.header.size < 0 {
+		// Read can never reach a negative size. Keep the error, so that Read
+		// and Close report it too if the caller ignores it here.
+		d.err = ErrHeader
+		err = d.err
+	}
+	return d, err
 }
 
 // Close closes the Reader. It does not close the underlying io.Reader.
@@ -106,6 +116,8 @@ func (d *Reader) Read(p []byte) (n int, err error) {
 		d.err = io.ErrUnexpectedEOF
 	case d.r.Err() != nil:
 		d.err = d.r.Err()
+	case d.err != nil:
+		// Keep the error from a previous call
 	case d.state.pos == d.header.size && d.state.buf.Len() == 0:
 		return 0, io.EOF
 	}
@@ -117,7 +129,7 @@ func (d *Reader) Read(p []byte) (n int, err error) {
 	n, err = d.state.buf.Read(p)
 
 	var i, j, k, c int
-	for n < len(p) && d.r.Err() == nil && d.state.pos < d.header.size {
+	for n < len(p) && d.err == nil && d.r.Err() == nil && d.state.pos < d.header.size {
 		c = int(d.decodeChar())
 
 		if c < 256 {
@@ -131,6 +143,16 @@ func (d *Reader) Read(p []byte) (n int, err error) {
 		i = (d.state.r - d.decodePosition() - 1) & (_N - 1)
 		j = c - 255 + _Threshold
 		for k = 0; k < j; k++ {
+			if d.state.pos == d.header.size {
+				// The match runs past the end of the file, so the data is
+				// corrupt. Don't return more than header.size bytes, and make
+				// the next Read (and Close) fail instead of waiting for an end
+				// position that was skipped.
+				if d.r.Err() == nil {
+					d.err = ErrChecksum
+				}
+				break
+			}
 			c = int(d.z.textBuf[(i+k)&(_N-1)])
 			if n < len(p) {
 				p[n] = byte(c)
